@@ -376,3 +376,91 @@ def fmt(t, depth=6):
     if k == "var":
         return "%s=%s" % (t[2], fmt(t[3], d))
     return k
+
+
+def subst(t, mapping):
+    """replace ('param', i, ..) leaves by mapping[i] (terms of the caller's arguments)"""
+    if not isinstance(t, tuple) or not t:
+        return t
+    k = t[0]
+    if k == "param":
+        return mapping.get(t[1], t)
+    if k in ("ref", "deref", "promoted"):
+        return (k, subst(t[1], mapping))
+    if k == "field":
+        return _project_field(subst(t[1], mapping), t[2], t[3] if len(t) > 3 else "")
+    if k in ("downcast", "cast", "discr"):
+        return (k, subst(t[1], mapping)) + t[2:]
+    if k == "index":
+        return (k, subst(t[1], mapping))
+    if k == "call":
+        return (k, t[1], [subst(a, mapping) for a in t[2]], t[3], t[4])
+    if k == "agg":
+        return (k, t[1], t[2], [subst(a, mapping) for a in t[3]]) + t[4:]
+    if k in ("tuple", "array", "phi"):
+        return (k, [subst(a, mapping) for a in t[1]])
+    if k == "closure":
+        return (k, t[1], [subst(a, mapping) for a in t[2]])
+    if k == "binop":
+        return (k, t[1], subst(t[2], mapping), subst(t[3], mapping))
+    if k == "unop":
+        return (k, t[1], subst(t[2], mapping))
+    if k == "var":
+        return (k, t[1], t[2], subst(t[3], mapping))
+    return t
+
+
+def inline_calls(t, facts, depth=2, _seen=()):
+    """replace calls to small crate-internal functions by their return term (parameters substituted), so that
+    provenance rules see through extracted helpers"""
+    if depth <= 0 or not isinstance(t, tuple) or not t:
+        return t
+    k = t[0]
+
+    def rec(x):
+        return inline_calls(x, facts, depth, _seen)
+    if k == "call":
+        args = [rec(a) for a in t[2]]
+        c = t[4]
+        tb = facts.body(t[1]) if c is not None else None
+        if tb is not None and tb.in_repo() and tb.kind != "closure" and len(tb.blocks) <= 80 and t[1] not in _seen and tb.impl_trait is None:
+            rt = du_of(tb).local_term(0, 26)
+            mapping = {i + 1: a for i, a in enumerate(args)}
+            body_t = subst(rt, mapping)
+            return ("call", t[1], args + [inline_calls(body_t, facts, depth - 1, _seen + (t[1],))], t[3], c)
+        # a crate function passed by name (`opt.map(Self::helper)`): its body applied to the receiver
+        extra = []
+        for a in t[2]:
+            if a[0] == "const" and a[1] == "fn":
+                fb = facts.body(a[2])
+                if fb is not None and fb.in_repo() and a[2] not in _seen and len(fb.blocks) <= 80 and args:
+                    rt = du_of(fb).local_term(0, 26)
+                    extra.append(inline_calls(subst(rt, {1: args[0]}), facts, depth - 1, _seen + (a[2],)))
+        # closures passed to the call: their result term (captures are not substituted)
+        for a in t[2]:
+            for x in ([a] if a[0] == "closure" else [a[3]] if a[0] == "var" and isinstance(a[3], tuple) and a[3] and a[3][0] == "closure" else []):
+                cb = facts.body(x[1])
+                if cb is not None and x[1] not in _seen:
+                    extra.append(inline_calls(du_of(cb).local_term(0, 20), facts, depth - 1, _seen + (x[1],)))
+        return ("call", t[1], args + extra, t[3], c)
+    if k in ("ref", "deref", "promoted"):
+        return (k, rec(t[1]))
+    if k == "field":
+        return _project_field(rec(t[1]), t[2], t[3] if len(t) > 3 else "")
+    if k in ("downcast", "cast", "discr"):
+        return (k, rec(t[1])) + t[2:]
+    if k == "index":
+        return (k, rec(t[1]))
+    if k == "agg":
+        return (k, t[1], t[2], [rec(a) for a in t[3]]) + t[4:]
+    if k in ("tuple", "array", "phi"):
+        return (k, [rec(a) for a in t[1]])
+    if k == "closure":
+        return (k, t[1], [rec(a) for a in t[2]])
+    if k == "binop":
+        return (k, t[1], rec(t[2]), rec(t[3]))
+    if k == "unop":
+        return (k, t[1], rec(t[2]))
+    if k == "var":
+        return (k, t[1], t[2], rec(t[3]))
+    return t
